@@ -10,13 +10,20 @@
   CounterZero guard flags are part of the per-machine runtime, so they are covered by the frame.
   The only framework state a neighbour's step can change besides its own component is: the random
   state, the log, the fault flag and the pending-signal slot (`C10_shared`).
-  `C10_full_partial`: what is NOT proved is the converse half — that machine `i`'s own steps read
-  nothing but its own component, the globals and the oracle, which together with the frame gives
-  "solo run = combined run" for draw-independent machines. That half is checked differentially on
-  the implementation and the model (harness `ni` cases: combined vs solo run on the projected
-  history), not by a theorem.
+  The converse half — machine `i`'s own steps read nothing but its own component, the globals
+  and the draws — is `Proofs/NonInterf.lean` (`sim_main`, lifted through every event, the
+  signal round, whole calls, histories and construction). Together they give the full statement
+  below: `C10_noninterference` (runtime and slot), `C10_actions` (returned actions),
+  `C10_solo` (next to any machines = alone), `C10_deterministic` (the hypothesis of the property:
+  deterministic sampling, any random sources). The statement is stronger than the property asks
+  in two ways: both sides may have arbitrary neighbours, and framework-wide fractions are allowed
+  (both runs see the same totals because the renamed history keeps every report).
+  The implementation is additionally checked differentially (harness `ni` cases: combined vs solo
+  run on the projected history).
 -/
 import MbVerif.Proofs.SafeCall
+import MbVerif.Proofs.NonInterf
+import MbVerif.Proofs.C04
 
 namespace Mb.C10
 open Mb
@@ -59,5 +66,166 @@ theorem C10_loop_frame (ev : Event) (i : Nat) (l : List Nat) (hi : i ∉ l) (s :
     obtain ⟨h1, h2⟩ := ih hi.2 ((transition ρ FUEL a ev s).1)
     obtain ⟨f1, f2⟩ := C10_frame_transition ρ FUEL i a ev s (fun h => hi.1 h.symm)
     exact ⟨h1.trans f1, h2.trans f2⟩
+
+/-! ### the full statement: same machine, any neighbours, any position ⇒ same actions -/
+
+section
+variable {σ' : Type} (ρ' : Oracle σ')
+
+/-- `C10_noninterference`: put machine `m` at index `i` among machines `ms` and at index `k`
+    among machines `ms'` (ANY neighbours, any positions; `ms' = [m]`, `k = 0` is the solo run).
+    Feed the first framework any history `h` and the second the same history with machine ids
+    renamed by any `f` that sends `i` to `k` and nothing else to `k` (so events addressed to
+    neighbours are addressed to other or unknown ids). If `m` has no transition on Signal and the
+    two random sources agree on what `m` can observe of them (`DrawAgree`: e.g. both constant, or
+    `m` deterministic, see below), then after every history the two frameworks agree on `m`'s
+    complete runtime (state, limit, counters, flags, accounting) and on `m`'s action slot up to
+    the machine id in it. Same framework-wide fractions and start time on both sides: the
+    framework-wide budgets are a sanctioned coupling, and they see the same totals because the
+    renamed history keeps every report. -/
+theorem C10_noninterference (ms ms' : List Machine) (i k : Nat) (m : Machine)
+    (hm : ms[i]? = some m) (hm' : ms'[k]? = some m) (hns : NoSigTrans m) (hda : DrawAgree ρ ρ' m)
+    (f : Nat → Nat) (hf : ∀ x, x = i ↔ f x = k)
+    (fp fb : F64) (t0 : Int) (rng : σ) (rng' : σ') (h : List Call) :
+    let s := runCalls ρ (Fw.init ρ ms fp fb t0 rng) h
+    let s' := runCalls ρ' (Fw.init ρ' ms' fp fb t0 rng') (mapHist f h)
+    s.rt[i]? = s'.rt[k]? ∧
+    (s.actions[i]?).map (Option.map TAction.erase) = (s'.actions[k]?).map (Option.map TAction.erase) := by
+  have hrel := runCalls_sim ρ ρ' hda hns f hf h _ _ (init_sim ρ ρ' hda ms ms' hm hm' fp fb t0 rng rng')
+  exact ⟨hrel.rt, hrel.act⟩
+
+/-- the returned actions of a framework that belong to machine `i` are exactly the content of
+    slot `i` -/
+theorem out_iff_slot (ms : List Machine) (fp fb : F64) (t0 : Int) (rng : σ) (h : List Call) (i : Nat) (a : TAction) :
+    let s := runCalls ρ (Fw.init ρ ms fp fb t0 rng) h
+    (a ∈ s.actionsOut ∧ a.machine = i) ↔ s.actions[i]? = some (some a) := by
+  intro s
+  have hI : Inv04 s :=
+    ((Inv04.init0 ms fp fb t0 rng).run (init_run ρ ms fp fb t0 rng)).run (runCalls_run ρ _ h)
+  unfold Fw.actionsOut
+  constructor
+  · rintro ⟨hmem, hmach⟩
+    rw [List.mem_filterMap] at hmem
+    obtain ⟨x, hx, hxa⟩ := hmem
+    simp only [id] at hxa
+    subst hxa
+    obtain ⟨j, hj⟩ := List.getElem?_of_mem hx
+    have := (hI.slots j a hj).1
+    rw [← hmach, this]; exact hj
+  · intro hs
+    refine ⟨?_, (hI.slots i a hs).1⟩
+    rw [List.mem_filterMap]
+    exact ⟨some a, List.mem_of_getElem? hs, rfl⟩
+
+/-- `C10_actions`: under the hypotheses of `C10_noninterference`, after every history the
+    actions returned for `m` by the two frameworks are the same up to the machine id: every
+    action for machine `i` in the first output has a counterpart for machine `k` in the second,
+    and conversely. (Each output holds at most one action per machine, `C04_out`.) -/
+theorem C10_actions (ms ms' : List Machine) (i k : Nat) (m : Machine)
+    (hm : ms[i]? = some m) (hm' : ms'[k]? = some m) (hns : NoSigTrans m) (hda : DrawAgree ρ ρ' m)
+    (f : Nat → Nat) (hf : ∀ x, x = i ↔ f x = k)
+    (fp fb : F64) (t0 : Int) (rng : σ) (rng' : σ') (h : List Call) :
+    let s := runCalls ρ (Fw.init ρ ms fp fb t0 rng) h
+    let s' := runCalls ρ' (Fw.init ρ' ms' fp fb t0 rng') (mapHist f h)
+    (∀ a, a ∈ s.actionsOut → a.machine = i → ∃ a', a' ∈ s'.actionsOut ∧ a'.machine = k ∧ a'.erase = a.erase) ∧
+    (∀ a', a' ∈ s'.actionsOut → a'.machine = k → ∃ a, a ∈ s.actionsOut ∧ a.machine = i ∧ a.erase = a'.erase) := by
+  intro s s'
+  have hact := (C10_noninterference ρ ρ' ms ms' i k m hm hm' hns hda f hf fp fb t0 rng rng' h).2
+  constructor
+  · intro a ha hmach
+    have hs := (out_iff_slot ρ ms fp fb t0 rng h i a).mp ⟨ha, hmach⟩
+    change s.actions[i]? = _ at hs
+    change (s.actions[i]?).map _ = (s'.actions[k]?).map _ at hact
+    rw [hs] at hact
+    cases hk : s'.actions[k]? with
+    | none => rw [hk] at hact; cases hact
+    | some o =>
+      rw [hk] at hact
+      cases o with
+      | none => simp at hact
+      | some a' =>
+        simp only [Option.map_some, Option.some.injEq] at hact
+        have := (out_iff_slot ρ' ms' fp fb t0 rng' (mapHist f h) k a').mpr hk
+        exact ⟨a', this.1, this.2, hact.symm⟩
+  · intro a' ha' hmach
+    have hs := (out_iff_slot ρ' ms' fp fb t0 rng' (mapHist f h) k a').mp ⟨ha', hmach⟩
+    change s'.actions[k]? = _ at hs
+    change (s.actions[i]?).map _ = (s'.actions[k]?).map _ at hact
+    rw [hs] at hact
+    cases hk : s.actions[i]? with
+    | none => rw [hk] at hact; cases hact
+    | some o =>
+      rw [hk] at hact
+      cases o with
+      | none => simp at hact
+      | some a =>
+        simp only [Option.map_some, Option.some.injEq] at hact
+        have := (out_iff_slot ρ ms fp fb t0 rng h i a).mpr hk
+        exact ⟨a, this.1, this.2, hact⟩
+
+/-- the renaming used for a solo run: the probe becomes machine 0, every other id becomes the
+    unknown id 1 -/
+def soloId (i : Nat) (x : Nat) : Nat := if x = i then 0 else 1
+
+/-- `C10_solo`: running `m` next to any machines at any position yields, for `m`, the same
+    actions as running it alone on the projected history. -/
+theorem C10_solo (ms : List Machine) (i : Nat) (m : Machine) (hm : ms[i]? = some m)
+    (hns : NoSigTrans m) (hda : DrawAgree ρ ρ' m)
+    (fp fb : F64) (t0 : Int) (rng : σ) (rng' : σ') (h : List Call) :
+    let s := runCalls ρ (Fw.init ρ ms fp fb t0 rng) h
+    let s' := runCalls ρ' (Fw.init ρ' [m] fp fb t0 rng') (mapHist (soloId i) h)
+    (∀ a, a ∈ s.actionsOut → a.machine = i → ∃ a', a' ∈ s'.actionsOut ∧ a'.machine = 0 ∧ a'.erase = a.erase) ∧
+    (∀ a', a' ∈ s'.actionsOut → a'.machine = 0 → ∃ a, a ∈ s.actionsOut ∧ a.machine = i ∧ a.erase = a'.erase) :=
+  C10_actions ρ ρ' ms [m] i 0 m hm rfl hns hda (soloId i)
+    (fun x => by unfold soloId; by_cases hx : x = i <;> simp [hx]) fp fb t0 rng rng' h
+
+/-! ### when do two random sources agree on what a machine can observe -/
+
+/-- sources whose returned values do not depend on their state agree on every machine -/
+theorem drawAgree_of_const (m : Machine)
+    (hu : ∀ a b, (ρ.u a).1 = (ρ'.u b).1) (hd : ∀ d a b, (ρ.d d a).1 = (ρ'.d d b).1) : DrawAgree ρ ρ' m :=
+  ⟨fun _ _ vec _ _ a b => by rw [hu a b], fun d _ a b => by unfold effRaw; rw [hd d a b]⟩
+
+/-- a machine with deterministic sampling: every transition vector is a single entry whose
+    probability adds up to exactly 1 in f32, and every distribution is a constant -/
+def Deterministic (m : Machine) : Prop :=
+  (∀ st ∈ m.states, ∀ (e : Nat) (vec : List Trans), st.transitions[e]? = some (some vec) →
+      ∃ t : Trans, vec = [t] ∧ Fp.add Fp.f32 (.fin 0) (Fp.val32 t.prob) = .fin 1) ∧
+  (∀ d, DistIn m d → d.constUniform.isSome)
+
+/-- for a deterministic machine ANY two sources whose uniform draws lie in [0,1) agree: the
+    shared random stream cannot matter -/
+theorem drawAgree_of_deterministic (m : Machine) (hdet : Deterministic m)
+    (hu : ∀ a, Fp.lt (Fp.val32 (ρ.u a).1) (.fin 1) = true)
+    (hu' : ∀ b, Fp.lt (Fp.val32 (ρ'.u b).1) (.fin 1) = true) : DrawAgree ρ ρ' m := by
+  refine ⟨fun st e vec hst htr a b => ?_, fun d hd a b => ?_⟩
+  · obtain ⟨t, hv, hsum⟩ := hdet.1 st hst e vec htr
+    subst hv
+    simp only [sampleState, sampleLoop, hsum, hu a, hu' b, if_true]
+  · have := hdet.2 d hd
+    unfold effRaw
+    cases hc : d.constUniform with
+    | none => rw [hc] at this; cases this
+    | some lo => rfl
+
+/-- `C10_deterministic`: the property as stated — for machines with deterministic sampling and
+    no Signal transitions, under any random sources with draws in [0,1). -/
+theorem C10_deterministic (ms ms' : List Machine) (i k : Nat) (m : Machine)
+    (hm : ms[i]? = some m) (hm' : ms'[k]? = some m) (hns : NoSigTrans m) (hdet : Deterministic m)
+    (hu : ∀ a, Fp.lt (Fp.val32 (ρ.u a).1) (.fin 1) = true)
+    (hu' : ∀ b, Fp.lt (Fp.val32 (ρ'.u b).1) (.fin 1) = true)
+    (f : Nat → Nat) (hf : ∀ x, x = i ↔ f x = k)
+    (fp fb : F64) (t0 : Int) (rng : σ) (rng' : σ') (h : List Call) :
+    let s := runCalls ρ (Fw.init ρ ms fp fb t0 rng) h
+    let s' := runCalls ρ' (Fw.init ρ' ms' fp fb t0 rng') (mapHist f h)
+    (∀ a, a ∈ s.actionsOut → a.machine = i → ∃ a', a' ∈ s'.actionsOut ∧ a'.machine = k ∧ a'.erase = a.erase) ∧
+    (∀ a', a' ∈ s'.actionsOut → a'.machine = k → ∃ a, a ∈ s.actionsOut ∧ a.machine = i ∧ a.erase = a'.erase) :=
+  C10_actions ρ ρ' ms ms' i k m hm hm' hns (drawAgree_of_deterministic ρ ρ' m hdet hu hu') f hf fp fb t0 rng rng' h
+
+end
+
+/-- Non-vacuity: the probability 1.0 (bits 0x3f800000) satisfies the "adds up to exactly 1"
+    condition of `Deterministic`. -/
+example : Fp.add Fp.f32 (.fin 0) (Fp.val32 0x3f800000) = .fin 1 := by decide +kernel
 
 end Mb.C10
